@@ -500,7 +500,7 @@ package larking
 // tokens.String is the concatenation of the token texts (C01: the text a variable captures is
 // exactly the path text its tokens cover). CatLen(toks, k) is the length of the first k texts.
 //@ rec CatLen(toks, k) Int = k <= 0 ? 0 : CatLen(toks, k-1) + len(toks[k-1].val)
-//@ func (tokens).String serves C01 C02 trusted pure partial post inv.init inv.keep
+//@ func (tokens).String serves C01 C02 trusted pure partial post inv.init inv.keep index
 //@   ensures [the-length-is-the-sum-of-the-token-lengths C01 C02] len(result) == CatLen(toks, len(toks))
 //@   ensures [every-token-text-is-in-its-place C01 C02] forall k, j :: 0 <= k && k < len(toks) && 0 <= j && j < len(toks[k].val) ==> result[CatLen(toks, k) + j] == toks[k].val[j]
 //@   loop 1 invariant -1 <= rangeindex && rangeindex < len(toks) && len(sbstr(&b)) == CatLen(toks, rangeindex + 1)
@@ -670,7 +670,7 @@ package larking
 // every query parameter in the list handed to the stream.
 // Assumed (the function ranges over a Go map and calls into protoreflect):
 // the result is nil or a freshly allocated slice.
-//@ func (*method).parseQueryParams serves C03 C07 trusted partial ghost post inv.init inv.keep
+//@ func (*method).parseQueryParams serves C03 C07 trusted partial ghost post inv.init inv.keep pre
 //@   returns (ps, err)
 //@   requires m != nil
 //@   modifies E$param
@@ -932,7 +932,7 @@ package larking
 //@ det FormatInt "strconv.FormatInt" string
 // (the HTTP status written for an error is the mapped status of its code, on both
 // the Twirp and the negotiated path)
-//@ func (*Mux).encError serves C05 C09 partial panic ghost nil[c.Marshal
+//@ func (*Mux).encError serves C05 C09 partial panic ghost nil[c.Marshal nil
 //@   requires m != nil && w != nil && r != nil
 //@   assert atcall `twirpCodeName(` [twirp-code-name C05] arg0 == StatusCodeOf(s)
 //@   witness verifWitnessTwirpCodes for twirp-code-name
@@ -1354,7 +1354,7 @@ package larking
 //@   ensures [one-in-payload-event-per-message C18] err == nil && s.opts.statsHandler != nil ==> payloadEvents == 1
 //@   ensures [no-event-without-message C18] err != nil ==> payloadEvents == 0
 
-//@ func (*streamHTTP).SendMsg serves C04 C09 C18 C16 partial pre[protoreflect inv.init inv.keep post assert index slice ghost
+//@ func (*streamHTTP).SendMsg serves C04 C09 C18 C16 partial pre[protoreflect inv.init inv.keep post assert index slice ghost pre
 //@   assert atcall `cur.Mutable(` [the-selector-is-walked-through-the-messages-own-descriptors C11 C09] fdOwner(arg0) == pay(MsgFields(MsgDescriptor(cur)))
 //@   assert atcall `cur.Get(` [http-body-fields-are-looked-up-in-the-message-that-is-written C04] arg0 != nil ==> fdOwner(arg0) == pay(MsgFields(MsgDescriptor(cur)))
 //@   assert atcall `s.getCodec(` [the-codec-is-chosen-for-the-message-that-is-written C04] arg2 == cur
@@ -1365,7 +1365,7 @@ package larking
 //@   ensures [one-out-payload-event-per-message C18] err == nil && s.opts.statsHandler != nil ==> payloadEvents == 1
 //@   ensures [no-event-without-message C18] err != nil ==> payloadEvents == 0
 
-//@ func (*streamWS).SendMsg serves C09 C16 C18 partial pre[protoreflect inv.init inv.keep assert index nil post ghost
+//@ func (*streamWS).SendMsg serves C09 C16 C18 partial pre[protoreflect inv.init inv.keep assert index nil post ghost pre
 //@   assert atcall `cur.Mutable(` [the-selector-is-walked-through-the-messages-own-descriptors C11 C09] fdOwner(arg0) == pay(MsgFields(MsgDescriptor(cur)))
 //@   returns (err)
 //@   requires s != nil && s.method != nil && AllSingular(s.method.resp) && impl(v, "proto.Message")
@@ -1409,7 +1409,7 @@ package larking
 //@   witness verifWitnessWSEndOfStream for end-of-stream-only
 //@   witness verifWitnessWSLimit for websocket-receive-limit
 //@   loop 1 invariant -1 <= rangeindex && rangeindex < len(s.method.body) && AllSingular(s.method.body) && cur != nil
-//@ func AsHTTPBodyWriter serves C09 C16 partial pre[protoreflect inv.init inv.keep index
+//@ func AsHTTPBodyWriter serves C09 C16 partial pre[protoreflect inv.init inv.keep index pre
 //@   requires stream != nil && msg != nil
 //@   assume at "for _, fd := range s.method.resp {" s != nil && s.method != nil && AllSingular(s.method.resp) && cur != nil
 //@   loop 1 invariant -1 <= rangeindex && rangeindex < len(s.method.resp) && AllSingular(s.method.resp) && cur != nil
@@ -1678,7 +1678,7 @@ package larking
 //@   ensures [an-early-end-is-one-end-event C18] at every return ends <= 1
 //@   assert atcall `sh.HandleRPC(ctx, &stats.End{` [an-early-end-carries-the-error-handed-in C18] ptr(pay(arg1), "stats.End").Error == err
 // gzipWriter.Close finishes the gzip stream and hands the writer back, once each (C13, C04).
-//@ func (*gzipWriter).Close serves C13 C04 partial ghost count post
+//@ func (*gzipWriter).Close serves C13 C04 partial ghost count post nil
 //@   requires z != nil
 //@   count dputs `defer z.pool.Put(`
 //@   count puts `z.pool.Put(`
